@@ -70,9 +70,42 @@ func (c *Ctx) mergeRoutines(d *dstate) []*mergeRoutine {
 	reach := c.P.Reach([]*ssa.Function{d.mergeRemote}, func(from *ssa.Function, cl *core.Call, to *ssa.Function) bool { return to.Package() == d.pkg })
 	var out []*mergeRoutine
 	for _, f := range sortedFuncs(reach) {
-		if cs := core.CallsTo(f, d.isOutdated); len(cs) > 0 {
-			out = append(out, &mergeRoutine{fn: f, outdated: cs})
+		// the routine is where the remote entry gets written; the LWW predicate may be consulted through a helper
+		writes := false
+		for _, b := range f.Blocks {
+			for _, in := range b.Instrs {
+				if c.remoteWriteInstr(d, f, in) {
+					// a call to something that itself consults the predicate is a call to the routine, not the routine's write
+					if cl := core.CallOf(in); cl != nil && cl.Static != nil && c.reaches(cl.Static, 2, isAny(d.isOutdated)) {
+						continue
+					}
+					if cl := core.CallOf(in); cl != nil && cl.Is(d.upsert) {
+						continue // the trie update: its callback is the routine
+					}
+					writes = true
+				}
+			}
 		}
+		if !writes || !c.reaches(f, 2, isAny(d.isOutdated)) {
+			continue
+		}
+		var cs []*core.Call
+		seen := map[*ssa.Function]bool{}
+		var collect func(g *ssa.Function, depth int)
+		collect = func(g *ssa.Function, depth int) {
+			if seen[g] || depth < 0 {
+				return
+			}
+			seen[g] = true
+			cs = append(cs, core.CallsTo(g, d.isOutdated)...)
+			for _, cl := range core.CallsIn(g) {
+				if cl.Static != nil && cl.Static.Package() == d.pkg && cl.Static.Parent() == nil && !c.writesStore(d, cl.Static, 2) {
+					collect(cl.Static, depth-1)
+				}
+			}
+		}
+		collect(f, 2)
+		out = append(out, &mergeRoutine{fn: f, outdated: cs})
 	}
 	return out
 }
@@ -135,13 +168,74 @@ func (c *Ctx) ruleMergeTable(id string, d *dstate) {
 		bad := ""
 		for _, oc := range r.outdated {
 			a0, a1 := oc.Common.Args[0], oc.Common.Args[1]
+			g := oc.Instr.Parent()
+			if g != f {
+				// consulted through a helper: the helper's parameters must arrive in the same order at its call sites in f
+				for _, site := range core.CallsIn(f) {
+					if site.Static != g {
+						continue
+					}
+					i0, i1 := -1, -1
+					for i, prm := range g.Params {
+						if core.Strip(a0) == ssa.Value(prm) || containerReaches(a0, func(v ssa.Value) bool { return v == ssa.Value(prm) }) {
+							i0 = i
+						}
+						if core.Strip(a1) == ssa.Value(prm) || containerReaches(a1, func(v ssa.Value) bool { return v == ssa.Value(prm) }) {
+							i1 = i
+						}
+					}
+					if i0 < 0 || i1 < 0 || i0 >= len(site.Common.Args) || i1 >= len(site.Common.Args) || !d.isRemoteValue(f, site.Common.Args[i1]) || d.isRemoteValue(f, site.Common.Args[i0]) {
+						bad = "IsEntryOutdated is not consulted as (local entry read from the store, remote entry from the payload)"
+					}
+				}
+				continue
+			}
 			if !d.isRemoteValue(f, a1) || d.isRemoteValue(f, a0) {
 				bad = "IsEntryOutdated is not called as (local entry read from the store, remote entry from the payload): with the arguments swapped a newer local entry is overwritten by an older remote one"
 			}
 		}
 		ru.Check(bad == "", key+"|argument order", c.where(f, f), "IsEntryOutdated(local, remote)", bad)
 
-		paths, err := core.EnumPaths(f, core.PathOpts{})
+		// one iteration of the batch loop, entered with whatever the previous iteration left behind (header phis unbound);
+		// routines without a batch loop (the trie update callback) are judged from their entry
+		opts := core.PathOpts{}
+		var batch *core.Loop
+		for _, l := range core.Loops(f) {
+			inLoop := false
+			for _, oc := range r.outdated {
+				if oc.Instr.Parent() == f && l.Blocks[oc.Instr.Block()] {
+					inLoop = true
+				}
+			}
+			for _, site := range core.CallsIn(f) {
+				for _, oc := range r.outdated {
+					if site.Static != nil && site.Static == oc.Instr.Parent() && l.Blocks[site.Instr.Block()] {
+						inLoop = true
+					}
+				}
+			}
+			if !inLoop {
+				continue
+			}
+			overPayload := false
+			for b := range l.Blocks {
+				for _, in := range b.Instrs {
+					if ia, ok := in.(*ssa.IndexAddr); ok {
+						if prm, ok := ia.X.(*ssa.Parameter); ok && prm.Parent() == f {
+							overPayload = true
+						}
+					}
+				}
+			}
+			if overPayload && (batch == nil || len(l.Blocks) > len(batch.Blocks)) {
+				batch = l
+			}
+		}
+		if batch != nil {
+			hdr := batch.Header
+			opts = core.PathOpts{Start: hdr, Stop: func(b *ssa.BasicBlock) bool { return b == hdr }}
+		}
+		paths, err := c.pathsInlined(f, opts, isAny(d.isOutdated, d.isAdded, d.isRemoved), func(g *ssa.Function) bool { return c.writesStore(d, g, 2) })
 		if err != nil {
 			ru.Undecided(key+"|table", c.where(f, f), err.Error())
 			continue
@@ -164,7 +258,7 @@ func (c *Ctx) ruleMergeTable(id string, d *dstate) {
 			added, addedKnown, removed, removedKnown := false, false, false, false
 			keyEqSeen := false
 			for _, cd := range p.Conds {
-				v := cd.V
+				v := p.Resolve(cd.V)
 				// commaok lookup
 				if ex, ok := v.(*ssa.Extract); ok && ex.Index == 1 {
 					if lk, ok := ex.Tuple.(*ssa.Lookup); ok && lk.CommaOk {
@@ -176,9 +270,9 @@ func (c *Ctx) ruleMergeTable(id string, d *dstate) {
 					switch {
 					case cl.Is(d.isOutdated):
 						outd, outdKnown = cd.Val, true
-					case cl.Is(d.isAdded) && d.isRemoteValue(f, cv.Call.Args[0]):
+					case cl.Is(d.isAdded) && d.isRemoteValue(f, p.Resolve(cv.Call.Args[0])):
 						added, addedKnown = cd.Val, true
-					case cl.Is(d.isRemoved) && d.isRemoteValue(f, cv.Call.Args[0]):
+					case cl.Is(d.isRemoved) && d.isRemoteValue(f, p.Resolve(cv.Call.Args[0])):
 						removed, removedKnown = cd.Val, true
 					}
 				}
@@ -242,6 +336,9 @@ func (c *Ctx) ruleMergeTable(id string, d *dstate) {
 					writes++
 				}
 			}
+			if batch != nil && len(p.Blocks) <= 2 && !presentKnown {
+				continue // the loop's normal end
+			}
 			if !presentKnown {
 				// path that does not look the local entry up at all (validation / bookkeeping only)
 				if writes > 0 {
@@ -255,6 +352,8 @@ func (c *Ctx) ruleMergeTable(id string, d *dstate) {
 				rows["present,unconsulted"]++
 				if writes > 0 {
 					bad = "an existing local entry is overwritten without consulting IsEntryOutdated: " + fmtPath(p, c.P)
+				} else {
+					bad = "a local entry exists but the decision is taken without consulting IsEntryOutdated(local, remote): a newer remote update (for instance the re-creation of an entry held as removed) is dropped — " + fmtPath(p, c.P)
 				}
 			case present && !outd:
 				rows["present,not-outdated"]++
@@ -328,7 +427,53 @@ func (c *Ctx) ruleMergeTable(id string, d *dstate) {
 				bad = "the batch loop is left early with a nil error (or an undecided one): the remaining entries of the batch are silently skipped — " + fmtPath(p, c.P)
 			}
 		}
-		ru4.Check(bad == "", key, c.where(m, m), "early exits return a non-nil error only", bad)
+		// every iteration that continues has consulted the store for that entry (no entry is skipped on the quiet)
+		var consults []ssa.Instruction
+		for _, b := range m.Blocks {
+			if !loop.Blocks[b] {
+				continue
+			}
+			for _, in := range b.Instrs {
+				switch x := in.(type) {
+				case *ssa.Lookup:
+					if x.CommaOk {
+						consults = append(consults, x)
+					}
+				case *ssa.Call:
+					cl := core.CallOf(x)
+					if cl.Static != nil && cl.Static.Package() == d.pkg && cl.Static != m {
+						// a package helper that reads or writes the store for this entry (get / set)
+						if c.writesStore(d, cl.Static, 2) || c.callsTransitively(cl.Static, 2, func(y *core.Call) bool { return y.Obj != nil && (y.Obj.Name() == "Match" || y.Obj.Name() == "Walk") }) {
+							consults = append(consults, x)
+						}
+					}
+				}
+			}
+		}
+		if len(consults) == 0 {
+			bad = "the batch loop never consults the store"
+		} else {
+			okAny := false
+			var firstSkip *ssa.BasicBlock
+			for _, consult := range consults {
+				all := true
+				for _, pr := range loop.Header.Preds {
+					if loop.Blocks[pr] && !consult.Block().Dominates(pr) {
+						all = false
+						if firstSkip == nil {
+							firstSkip = pr
+						}
+					}
+				}
+				if all {
+					okAny = true
+				}
+			}
+			if !okAny {
+				bad = "an iteration of the batch loop can move on to the next entry without consulting the store for the current one (at " + c.P.Pos(lastPos(firstSkip)) + "): that class of remote entries is silently ignored, so the two nodes never agree on them"
+			}
+		}
+		ru4.Check(bad == "", key, c.where(m, m), "early exits return a non-nil error only; every continuing iteration consults the store", bad)
 	}
 }
 
